@@ -459,6 +459,11 @@ pub fn fax_decode(data: &[u8], params: &CCITTFaxDecodeParams) -> Result<Vec<u8>>
         };
         let columns = width as usize;
         let rows = params.rows as usize;
+        // A coded row takes at least one bit. The decoder pads with white rows up to /Rows when the data
+        // ends early, so without this test four bytes with /Columns 65535 /Rows 65535 decode to 4 GiB.
+        if rows > data.len().saturating_mul(8) {
+            bail!("CCITTFaxDecode: {} rows cannot be coded in {} bytes", rows, data.len());
+        }
 
         // not pre-allocated: columns * rows is what the file claims, not what the data holds
         let mut buf = Vec::new();
